@@ -10,3 +10,17 @@ func VerifSetLBIndex(lb LoadBalancer, v uint64) {
 }
 
 func verifSetUint[T ~uint32 | ~uint64](p *T, v uint64) { *p = T(v) }
+
+// VerifPending exposes pendingRequests (the backend stream-id allocator and pending table of
+// one backend connection) with a chosen number of stream ids.
+type VerifPending struct{ p *pendingRequests }
+
+func VerifNewPending(maxStreams int16) *VerifPending {
+	return &VerifPending{p: newPendingRequests(maxStreams)}
+}
+
+func (v *VerifPending) Store(request Request) int16 { return v.p.store(request) }
+
+func (v *VerifPending) LoadAndDelete(stream int16) Request { return v.p.loadAndDelete(stream) }
+
+func (v *VerifPending) Closing(err error) { v.p.closing(err) }
